@@ -24,7 +24,11 @@ REQUIRED = ["events", "built", "refused", "valid_genesis", "invalid_genesis", "f
             "class_bad_pop_skipped", "class_invalid_pubkey_skipped", "class_topups", "class_amount_edges", "class_eth1_creds",
             "class_broken_proof", "class_random", "broken_proof_flip", "broken_proof_final_tree", "broken_proof_swap",
             "dep_new_full", "dep_new_partial", "dep_new_over", "dep_new_bad_pop", "dep_new_wrong_domain", "dep_new_eth1_creds",
-            "dep_topup", "dep_topup_bad_sig", "dep_topup_other_creds", "dep_invalid_pubkey", "dep_garbage_sig"]
+            "dep_topup", "dep_topup_bad_sig", "dep_topup_other_creds", "dep_invalid_pubkey", "dep_garbage_sig",
+            # signature-byte shapes x {new pubkey, top-up}: valid / wrong but decodable / all-zero / all-0xff / garbage / infinity
+            "dep_new_sig_zero", "dep_new_sig_ff", "dep_new_sig_infinity", "dep_topup_sig_zero", "dep_topup_sig_ff",
+            "dep_topup_sig_garbage", "dep_topup_sig_infinity", "dep_redeposit",
+            "class_topup_signature_shapes", "class_new_signature_shapes_then_redeposit"]
 ASSUMPTIONS = [
     "scaled presets (every quantity < 2^31)",
     "hash_tree_root of the deposit list (incremental), of the validator registry and of deposit data / messages come from the "
